@@ -19,7 +19,10 @@ Definition c04_ind : Type := @aind float.          (* (id within the case, (obje
 Inductive c04_op :=
 | OpAdd (i : nat)                         (* archive.add(ind_i) *)
 | OpTrunc (size : nat) (larger : bool)    (* archive.truncate(size, getter, larger_preferred) *)
-| OpRemove (i : nat).                     (* archive.remove(ind_i) *)
+| OpRemove (i : nat)                      (* archive.remove(ind_i) *)
+| OpBatch (l : list nat) (iadd : bool).   (* the bulk entry points: archive.append(x) (l = [x]) / archive.extend(l) when
+                                             iadd = false, `archive += l` / `archive += x` when true: one archive.add per
+                                             element, in order, every element offered whatever became of the earlier ones *)
 
 Record c04_case := {
   c4_eps : option (list float);                 (* None = ParetoDominance, Some eps = EpsilonDominance(eps) *)
@@ -29,7 +32,7 @@ Record c04_case := {
   c4_tapes : list (list (float * float));       (* pow oracle of individual i (epsilon comparator only) *)
   c4_ops : list c04_op }.
 
-(* contents (ids, in order) and result (0 = False, 1 = True, 2 = None) after every operation;
+(* contents (ids, in order) and result (0 = False, 1 = True, 2 = None, 4 = the archive itself) after every operation;
    None = the pow oracle does not fit the individuals *)
 Definition c04_obs : Type := option (list (list nat * nat)).
 
@@ -75,6 +78,9 @@ Definition step (cmp : c04_ind -> c04_ind -> nat) (c : c04_case) (a : list c04_i
   | OpAdd i => let '(a', ok) := archive_add cmp (aceq fltb) a (ind_of c i) in (a', if ok then 1%nat else 0%nat)
   | OpTrunc size larger => (archive_truncate (key_leb c) a size larger, 2%nat)
   | OpRemove i => let '(a', ok) := archive_remove (ind_eq_of c) a (ind_of c i) in (a', if ok then 1%nat else 0%nat)
+  | OpBatch l iadd =>
+      (* a fold of archive_add over the batch; 2 = returns None (append, extend), 4 = returns the archive itself (+=) *)
+      (fold_left (fun a' i => fst (archive_add cmp (aceq fltb) a' (ind_of c i))) l a, if iadd then 4%nat else 2%nat)
   end.
 
 Fixpoint run_ops (cmp : c04_ind -> c04_ind -> nat) (c : c04_case) (a : list c04_ind) (ops : list c04_op)
